@@ -1656,6 +1656,104 @@ func sharedOne(idx int64, res *explore.Result) bool {
 	return false
 }
 
+// enumeration 6: requests that name NO sort order (the default: score
+// descending, ties by index order).  One case = (corpus order, page size): a
+// fresh top-N request, then an After chain and a Before chain of fresh requests,
+// and after EVERY request of a chain a fresh top-N request again, which must
+// return what the first one returned (and what the reference order says).
+var defaultLists = [][]int{{0, 4, 8, 2, 3}, {3, 2, 8, 4, 0, 4}, {8, 8, 0, 4, 2, 3, 0}}
+
+func defaultTotal(param string) int64 { return int64(len(defaultLists) * 4 * 2) }
+
+func defaultEval(idx int64, param string) *explore.Result {
+	res := &explore.Result{Outcome: fmt.Sprint(idx)}
+	list := defaultLists[int(idx)%len(defaultLists)]
+	p := int(idx/int64(len(defaultLists)))%4 + 1
+	qi := int(idx / int64(len(defaultLists)*4))
+	r, fail := buildIndex(list, layoutT{split: 2})
+	if fail != "" {
+		res.Failure, res.Key = fail, "default-order build"
+		return res
+	}
+	defer r.Close()
+	x := &e2e{r: r, list: list, numPos: map[uint64]int{}}
+	scores, fail := x.reference(qi)
+	if fail != "" {
+		res.Failure, res.Key = fail, "default-order reference"
+		return res
+	}
+	var rows []row
+	var matching []int
+	for i := range list {
+		var rw row
+		rw[tScore] = val{f: scores[i]}
+		rows = append(rows, rw)
+		if scores[i] > 0 {
+			matching = append(matching, i)
+		}
+	}
+	full := refOrder(rows, []keyT{{typ: tScore, desc: true}})
+	var want []int
+	for _, i := range full {
+		if scores[i] > 0 {
+			want = append(want, i)
+		}
+	}
+	n := len(list) + 1
+	fresh := func(when string) bool {
+		got, fail := x.run(bluge.NewTopNSearch(n, queryOf(qi)))
+		res.Evals++
+		res.Nontrivial++
+		if fail != "" || !sameInts(hitPos(got), want) {
+			res.Key = "default-order:fresh-request-differs"
+			res.Failure = fmt.Sprintf("%s: a fresh top-%d request without a sort order, issued %s, returned %s, expected %s (%s); corpus %s",
+				res.Key, n, when, posString(list, hitPos(got)), posString(list, want), fail, corpusString(list))
+			return false
+		}
+		return true
+	}
+	if !fresh("first") {
+		return res
+	}
+	all, _ := x.run(bluge.NewTopNSearch(n, queryOf(qi)))
+	if len(all) == 0 {
+		return res
+	}
+	for _, dir := range []string{"after", "before"} {
+		key := all[0].sv
+		if dir == "before" {
+			key = all[len(all)-1].sv
+		}
+		for page := 0; page < 8; page++ {
+			req := bluge.NewTopNSearch(p, queryOf(qi))
+			if dir == "after" {
+				req.After(key)
+			} else {
+				req.Before(key)
+			}
+			got, fail := x.run(req)
+			res.Evals++
+			if fail != "" {
+				res.Key = "default-order:" + dir
+				res.Failure = fmt.Sprintf("%s: page %d of a %s chain (page size %d) without a sort order failed: %s; corpus %s", res.Key, page, dir, p, fail, corpusString(list))
+				return res
+			}
+			if !fresh(fmt.Sprintf("after page %d of a search-%s chain of page size %d", page, dir, p)) {
+				return res
+			}
+			if len(got) == 0 {
+				break
+			}
+			if dir == "after" {
+				key = got[len(got)-1].sv
+			} else {
+				key = got[0].sv
+			}
+		}
+	}
+	return res
+}
+
 // enumeration 5: text values at the edges of the byte order next to a missing
 // value (one case = one value; inner loop = 6 index orders x 4 single-key orders)
 // (values containing the byte 0xff are left out: the segment format uses 0xff as
@@ -1764,6 +1862,7 @@ func main() {
 	explore.RegisterEnum("c09-multisearch", multiTotal, multiEval)
 	explore.RegisterEnum("c09-e2e-shared-sortorder", sharedTotal, sharedEval)
 	explore.RegisterEnum("c09-e2e-boundary-text", boundaryTotal, boundaryEval)
+	explore.RegisterEnum("c09-e2e-default-order", defaultTotal, defaultEval)
 	explore.WorkerMain()
 	c := checkmain.New("C09")
 	if v := c.IsReplay(); v != nil {
@@ -1801,6 +1900,7 @@ func main() {
 		{"c09-multisearch", 7 * time.Second, 90 * time.Second},
 		{"c09-e2e-shared-sortorder", 2 * time.Second, 10 * time.Second},
 		{"c09-e2e-boundary-text", 2 * time.Second, 10 * time.Second},
+		{"c09-e2e-default-order", 3 * time.Second, 10 * time.Second},
 	}
 	for i, e := range plan {
 		if only != "" && e.name != only && e.name != "c09-"+only {
